@@ -378,12 +378,12 @@ func DecodeHeaderBody(b []byte) (Header, error) {
 
 // Section is one decoded section of a payload.
 type Section struct {
-	Offset   uint64 // payload-relative offset of the length varint
-	LenSize  int
-	Cid      Cid
-	Data     []byte
-	DataOff  uint64 // payload-relative offset of the data
-	End      uint64 // payload-relative end of the section
+	Offset  uint64 // payload-relative offset of the length varint
+	LenSize int
+	Cid     Cid
+	Data    []byte
+	DataOff uint64 // payload-relative offset of the data
+	End     uint64 // payload-relative end of the section
 }
 
 // Payload is a decoded CARv1.
@@ -552,12 +552,12 @@ func Version(b []byte) (uint64, error) {
 
 // Archive is a decoded file of either version.
 type Archive struct {
-	Version     uint64
-	V2          V2Header
-	PayloadOff  uint64
-	PayloadLen  uint64
-	Payload     *Payload
-	IndexBytes  []byte // nil when there is no index
+	Version    uint64
+	V2         V2Header
+	PayloadOff uint64
+	PayloadLen uint64
+	Payload    *Payload
+	IndexBytes []byte // nil when there is no index
 }
 
 // Decode decodes a CARv1 or CARv2 file completely and strictly.
